@@ -200,7 +200,7 @@ func (f *Fosite) WriteIntrospectionResponse(ctx context.Context, rw http.Respons
 		for name, value := range extraClaims {
 			switch name {
 			// We do not allow these to be set through extra claims.
-			case "exp", "client_id", "scope", "iat", "sub", "aud", "username":
+			case "active", "exp", "client_id", "scope", "iat", "sub", "aud", "username":
 				continue
 			default:
 				response[name] = value
